@@ -1,0 +1,27 @@
+//go:build verif
+
+// Machine-checked contracts for package xmldsig (comment-only; see /verif/DESIGN.md).
+
+package xmldsig
+
+//@ func Sign
+//@   property C07
+//@   ghost pub crypto.PublicKey = nil
+//@   ghost matched bool = false
+//@   on call invoke crypto.Signer.Public(k) ret (p): pub = ite(k == privKey, p, pub)
+//@   on call x509tools.SameKey(a, b) ret (r): matched = (r && a == pub && b == certs[0].PublicKey)
+//@   before call finishSignature(_, _, _, k, cs, _): assert @signs_only_after_the_match matched && k == privKey && sameslice(cs, certs)
+//@   ensures @first_certificate_matches_the_signing_key ret0 == nil ==> matched && len(certs) >= 1
+//@
+//@ func SignEnveloping
+//@   property C07
+//@   ghost pub crypto.PublicKey = nil
+//@   ghost matched bool = false
+//@   on call invoke crypto.Signer.Public(k) ret (p): pub = ite(k == privKey, p, pub)
+//@   on call x509tools.SameKey(a, b) ret (r): matched = (r && a == pub && b == certs[0].PublicKey)
+//@   before call finishSignature(_, _, _, k, cs, _): assert @signs_only_after_the_match matched && k == privKey && sameslice(cs, certs)
+//@   ensures @first_certificate_matches_the_signing_key ret1 == nil ==> matched && len(certs) >= 1
+//@
+//@ func finishSignature
+//@   property C07
+//@   before call invoke crypto.Signer.Sign(k, _, _, _): assert @signature_made_with_the_given_key k == privKey
